@@ -182,6 +182,8 @@ def enumerate_sites(prog, body):
 ISIZE_MAX = 2 ** 63 - 1
 # invariants of private integer fields, filled by fieldinv.compute (empty: every field has its type range)
 FIELD_INV = {}
+# the program (for closures handed to combinators); set by the census entry points
+PROG = None
 
 
 VALUE_WRAPPERS = {'branch', 'map_err', 'ok_or', 'ok_or_else', 'try_from', 'try_into', 'from', 'into', 'unwrap', 'expect', 'unwrap_or_default'}
@@ -345,6 +347,26 @@ def interval(body, e, depth=0, ty_hint=None):
                 if lim is not None:
                     return (0, lim[1])
             return (0, 2 ** 64 - 1)
+        if m in ('map_or', 'unwrap_or') and len(t.args) >= 2 and cn.startswith(('std::option::Option', 'std::result::Result')):
+            # Option/Result::map_or(default, f) / unwrap_or(default): the default, or what the closure returns (its parameters unconstrained), or the payload
+            dflt = interval(body, t.args[1], depth + 1)
+            other = None
+            if m == 'unwrap_or':
+                src = payload_source(body, ('call', e[1], t))
+                other = interval(body, src, depth + 1) if src is not None else None
+                tr_ = type_range(dty) if dty else None
+                if other is not None and tr_ is not None:
+                    other = (max(other[0], tr_[0]), min(other[1], tr_[1])) if max(other[0], tr_[0]) <= min(other[1], tr_[1]) else tr_
+                other = other or tr_
+            elif len(t.args) == 3 and PROG is not None:
+                ce = expr_of(body, t.args[2])
+                if ce[0] == 'agg' and ce[3].j.get('agg') == 'closure':
+                    cb = PROG.body(body.pkg, ce[3].j['closure'])
+                    if cb is not None and not ce[3].ops:      # no captures: the result depends on the payload only
+                        other = interval(cb, _mk_copy((0, ())), depth + 1)
+            if dflt is not None and other is not None:
+                return (min(dflt[0], other[0]), max(dflt[1], other[1]))
+            return type_range(dty) if dty else None
         if m == 'saturating_sub' and len(t.args) == 2:
             a = interval(body, t.args[0], depth + 1)
             b = interval(body, t.args[1], depth + 1)
